@@ -32,7 +32,7 @@ SPEC = {
                  "C17_dag_exclusion", "C17_dag_deadlock_free", "C17_dag_no_deadlock", "C17_dag_wellbracketed_no_panic",
                  "C17_dag_unlock_unheld_panics", "C17_dag_unlock_wrong_mode_old_witness",
                  "C17_wait_iff_returns_only_if", "C17_wait_iff_no_lost_wakeup", "C17_wait_iff_quiescent",
-                 "C17_skeleton_starvingmutex", "C17_skeleton_dagmutex", "C17_skeleton_counter", "C17_skeleton_stack"],
+                 "C17_driver_outcomes_reachable", "C17_skeleton_starvingmutex", "C17_skeleton_dagmutex", "C17_skeleton_counter", "C17_skeleton_stack"],
     "trusted_base": [
         "hand-written protocol models Hive/Model/SyncMutex.lean (StarvingMutex monitor), SyncMutexDag.lean (DAGMutex over abstract "
         "per-entity reader/writer locks), SyncMutexWait.lean (Counter/Stack waits); ties: scripted-arrival conformance, stress traces, "
